@@ -32,7 +32,7 @@ def driver_line(op: dict, impl_resp: str) -> str | None:
         return (f"new sid={op['sid']} solver={op['solver']} id={op['id']} n={n} maxbs={op['maxbs']} dev={dev} gamma={op['gamma']} "
                 f"eps={op['eps']} test={op.get('test', 'span')} period={op.get('period', 1)} budget={op.get('budget', 100)} "
                 f"reset={op.get('reset', 0)} clear={op.get('clear', 1)} f={op.get('f', 0)} m={op.get('m', 1)} dir={op.get('dir', '-')} cfg={op.get('cfg', 0)}")
-    if o == "basedir":
+    if o in ("basedir", "configdump", "mktmp"):
         return None
     if o == "ls":
         return f"ls dir={op['dir']}"
